@@ -91,8 +91,12 @@ let vec_close a b = List.length a = List.length b && List.for_all2 closeq a b
 let judge _id (c : cursor) (r : cursor) : bool * string =
   let kind = next c in
   match kind with
-  | "solve" ->
-    let alg = next c in let _repr = next c in let h = next_int c in
+  | "solve" | "resolve" ->
+    let alg = next c in let _repr = next c in
+    (* resolve: the same solver object first solved another problem (skipped here); the answer for the second
+       problem is judged exactly like a fresh solve *)
+    if kind = "resolve" then begin let _ha = next_int c in let _ma = read_pomdp c in () end;
+    let h = next_int c in
     let m = read_pomdp c in
     let s = int_of_nat m.pm.nS in
     let bs = read_beliefs c s in
